@@ -811,9 +811,12 @@ impl Prop for C18 {
     fn rule(&self) -> String {
         "Each run is a seeded history (3-60 operations; per-run operation weights, handle limit 2-6) over \
          simultaneously live NumbatList handles: new/with_capacity/build-by-push_front/clone/drop/push_front/\
-         push_back/tail/head (consuming)/head of a clone/Debug/==, every pushed value unique; 1 run in 4 \
+         push_back/tail/head (consuming)/head of a clone/Debug/==, every pushed value unique, element equality \
+         coarser than identity (key = value / 16) with 'twin' pushes (equal key, other tag) of elements at the \
+         ends of lists or just removed by tail; 1 run in 4 \
          additionally arms a panic in the element type's Clone; 1 run in 500 drives the list FFI and list \
-         library functions through the interpreter on sessions that are cloned mid-way. After every operation \
+         library functions through the interpreter on sessions that are cloned mid-way (40 % of those in unit \
+         mode: lengths written as `x m` / `100x cm`; nested lists built from list globals). After every operation \
          all live handles are compared with a Vec model. A run is non-trivial if at least two handles shared \
          one allocation and one of them was pushed to, consumed by head or dropped while shared (level 2: a \
          list global was used by two sessions or two globals and then extended). Distinct = distinct \
